@@ -40,6 +40,8 @@ func checkC05(c *Check) {
 	ruleBlocksCloseLatch(c, p, "R05.7")
 	ruleErrorsNotAbsorbed(c, p, "R05.8", readerSideFuncs(p), errAbsorbExempt)
 	ruleSyntheticEOF(c, p, "R05.9")
+	ruleMagicDispatch(c, p, "R05.13")
+	c.RuleDoc["R05.13"] = "= R19.1: exact value sets of the magic dispatch (a corrupted magic is not taken for a skippable frame)"
 	ruleObserversPure(c, p, "R05.12")
 	c.RuleDoc["R05.12"] = "observer methods are pure (= R17.15): Size() cannot consume or judge a header"
 	ruleHeaderParsers(c, p, "R05.11")
@@ -67,6 +69,8 @@ func checkC06(c *Check) {
 	ruleEOSCallsCloseR(c, p, "R06.4")
 	ruleErrorsNotAbsorbed(c, p, "R06.5", readerSideFuncs(p), errAbsorbExempt)
 	ruleBlocksCloseLatch(c, p, "R06.6")
+	ruleStreamsThroughInterface(c, p, "R06.8")
+	c.RuleDoc["R06.8"] = "= R07.10: the source is only read (no Seek past its end): truncation inside a skipped region is seen"
 	ruleLegacyDescriptor(c, p, "R06.7")
 	c.RuleDoc["R06.7"] = "the synthetic descriptor of a legacy frame declares only the block size (legacy frames stay on the sequential path)"
 }
